@@ -18,6 +18,10 @@ CHECKS = {
    text="Histories define* ; (use | cancelled-eval)* over 14 definition kinds (named, recursive and void functions, value/pointer/stateful methods, closures in variables/maps/structs/slices, factory closures, method values), 4 use modes (first Eval after the cancellation, later Eval, host call before/after a further Eval) and 7 kinds of cancelled evaluation (busy loops frozen at operation k, goroutines, blocked receive/select, expired context, loop calling the definitions), enumerated for one and two cancellations plus seeded longer histories. Every use is compared with the model of the definition.",
    note="The cancelled call itself is judged by C09. Known findings C10-F1 (closures dead for ever), C10-F2 (host-held values dead until the next Eval) mask those cells; named functions, methods and method values through Eval and through the host after a further Eval are guarded.",
    design="2/C10"),
+ "C13": dict(technique="runtime monitors: import probes per package key and form, invariant walk of the live per-interpreter symbol table (code-pointer comparison), child-process exit probes, environment map-model history checker, fd-canary I/O redirection monitor, cross-interpreter isolation probes",
+   text="Every key of the default table is imported in 4 forms plus ImportUsed and a symbol used; unsafe, syscall and os/exec are tried in 7 forms and must fail; every function value of a live restricted interpreter's table is compared by code pointer with os.Exit, log.Fatal*, (*log.Logger).Fatal*, the os environment functions, log.Default/New, and its results scanned for raw *log.Logger; every exit entry point of the override list is run in a child process (death of the child is the refuting event) with and without recover, and the interpreter must stay usable; seeded sequences of Setenv/Unsetenv/Clearenv/Getenv/LookupEnv/Environ/ExpandEnv are compared with a map model while the host environment (with a canary variable) is snapshotted; every redirected fmt/print/log/scan/os.Args/flag function runs in a child whose real fd 0/1/2 are canary files; three interpreters with different streams, arguments and environments, one of them unrestricted, must not influence each other or a restricted interpreter created later.",
+   note="Trusted: the child-process liveness signal and file sizes of the canary descriptors. Direct use of os.Stdout/os.Stderr by a script is documented by yaegi as outside the virtualisation and is not probed. Known findings C13-F1..F3.",
+   design="2/C13"),
 }
 NOT_YET = {}
 def main():
